@@ -4,6 +4,9 @@
 
 mod c01;
 mod c04;
+mod c06;
+mod c07;
+mod c08;
 mod c11;
 mod c12;
 mod c13;
@@ -13,6 +16,7 @@ mod mc;
 mod pkt;
 mod report;
 mod simnet;
+mod strat;
 mod vclock;
 mod wire;
 
@@ -29,6 +33,9 @@ fn main() {
     let code = match argv[1].as_str() {
         "C01" => c01::run(&args),
         "C04" => c04::run(&args),
+        "C06" => c06::run(&args),
+        "C07" => c07::run(&args),
+        "C08" => c08::run(&args),
         "C11" => c11::run(&args),
         "C12" => c12::run(&args),
         "C13" => c13::run(&args),
